@@ -10,10 +10,10 @@ var levelOf = map[string]string{
 }
 
 var ruleText = map[string]string{
-	"C16": "plan = (policy recipe, input, chunk schedule) drawn from VERIF_SEED; each plan enumerates every write index (all when the fault-free run makes <=64 writes, boundary-biased sample otherwise) x {permanent, transient-once, short(0), short(n), full-then-error} x {WriteString-capable, Write-only destination}, every source offset (all when len<=256) x {error alone, error with data} x {SanitizeReaderToWriter, SanitizeReader}, plus sampled combined source+destination faults. An execution is non-trivial when its injected fault actually fired (the failing Write/Read call was reached); distinct = distinct (plan digest, fault) pairs, plans de-duplicated by digest of recipe+input+schedule.",
-	"C15": "plan = (policy recipe, input, K chunk schedules, writer kinds) drawn from VERIF_SEED; each plan compares Sanitize, SanitizeBytes, SanitizeReader and SanitizeReaderToWriter under every schedule, every two-chunk split position when len<=256 (exhaustive sub-space), early EOF positions, and (sampled) both CLI binaries. An execution is non-trivial when the source was delivered in >=2 Read calls or through a Write-only destination or through a CLI process; distinct = distinct (plan digest, schedule) pairs.",
-	"C13": "plan = (policy recipe, 2-6 caller tasks x 1-4 operations, schedule, map-order mode) drawn from VERIF_SEED; tasks are serialised by the simulator's baton at every Read, Write, callback and map-iteration point. A plan is non-trivial when at least two tasks were actually interleaved (>=1 context switch between unfinished tasks); distinct = distinct plan digests among those.",
-	"C17": "plan = history of builder steps over 1-3 policy instances plus one transformation (interleave, permute, case-mutate, reduce toggles); compared behaviourally on probe inputs against the canonical build. A plan is non-trivial when the transformed history differs from the canonical one in at least two positions; distinct = distinct plan digests among those.",
+	"C16": "plan = (policy recipe, input, chunk schedule) drawn from VERIF_SEED; each plan enumerates every write index (all when the fault-free run makes <=64 writes, boundary-biased sample otherwise) x {permanent, transient-once, short(0), short(n), full-then-error} x destination kinds {WriteString-capable, Write-only, and on small cases the same two with Flush/Sync/Close} with the error value drawn from {sentinel, io.EOF, io.ErrShortWrite, io.ErrClosedPipe, EAGAIN, deadline}, every source offset (all when len<=256) x {error alone, error with data} x 6 error kinds (incl. an error wrapping io.EOF) x {SanitizeReaderToWriter, SanitizeReader}, plus sampled combined source+destination faults. An execution is non-trivial when its injected fault actually fired (the failing Write/Read call was reached); distinct = distinct (plan digest, fault) pairs, plans de-duplicated by digest of recipe+input+schedule.",
+	"C15": "plan = (policy recipe, input, chunk schedules, writer kinds) drawn from VERIF_SEED; each plan compares Sanitize, SanitizeBytes, SanitizeReader and SanitizeReaderToWriter under every schedule (all-at-once, 1 byte, fixed, random with empty reads, an empty read before every chunk, data+EOF, scratch scribbling, splits clustered at syntactic marks and at 4096*2^k), every two-chunk split position when len<=256 (exhaustive sub-space), early EOF positions, a retention check (results re-read after later unrelated calls), a canary behind the caller's []byte, giant single tokens (70 KB - 1.1 MB) and, for 8% of the plans, both CLI binaries fed over a pipe in scheduled chunks (a quarter of those with 70-200 KB of stdin). An execution is non-trivial when the source was delivered in >=2 Read calls or through a Write-only destination or through a CLI process; distinct = distinct (plan digest, schedule) pairs.",
+	"C13": "plan = (policy recipe, 2-6 caller tasks x 1-4 operations, schedule mode {uniform with stickiness 0/0.5/0.9, PCT depth 2-4}, map-order mode {canonical, reversed, fresh random permutation per visit; also applied while the shared policy is constructed}) drawn from VERIF_SEED; tasks are serialised by the simulator's baton at every Read, Write, user callback, map-iteration and (instrumented) sync/atomic use inside the library. Every 7th plan (quick; 40th thorough) is also executed alone in a pristine child process and the result digests compared. A plan is non-trivial when at least two tasks were actually interleaved (>=1 context switch between unfinished tasks); distinct = distinct plan digests among those.",
+	"C17": "plan = history of builder steps over 1-3 policy instances (chains split into separately scheduled steps, some builders used for two scope calls, rule piles and same-slot collisions, toggled switches) plus the transformations: step-interleaving (every other plan also calls Sanitize between builder steps), isolation (other instances and fresh shipped policies extended afterwards), permutation within commutation classes, ASCII case mutation of names, reduction of dead/redundant switch settings; compared behaviourally on ~550 probe inputs against the canonical build; sampled plans are also run alone in a pristine process. A sub-check is non-trivial when the transformed history differs from the canonical one in at least two positions (interleave: >=2 instance switches; recent: >=1 call dropped); distinct = distinct plan digests.",
 }
 
 var assumptions = map[string][]string{
